@@ -33,7 +33,7 @@ RULE = (
     "one virtual second after entry the file equals the registry; a change made at time t is on disk by t+901 s; on exit the exception "
     "leaving 'async with' is the body's or the injected fault's (never CancelledError), disconnect ran exactly once, the file equals the "
     "registry at exit and no task is left; a failing connect propagates and leaves no task. The k/fault/kind/file product is enumerated; "
-    "Hypothesis adds generated T/k/registries. Non-trivial = exit while the saver is not parked in its sleep, or an injected fault, or "
+    "for fault-free runs a second session on the same gateway object must behave the same; Hypothesis adds generated T/k/registries. Non-trivial = exit while the saver is not parked in its sleep, or an injected fault, or "
     "virtual time crossing a save boundary; distinct = distinct case JSON."
 )
 ASSUMPTIONS = [
@@ -61,6 +61,8 @@ def enumerate_cases(tier: str):
             continue  # the built-in transports absorb their own disconnect errors; a hanging connect is modelled on the plain kind
         for k in range(0, 13):
             yield {"kind": kind, "fault": fault, "file": initial, "k": k, "T": None, "mutate": True}
+            if fault == "none":
+                yield {"kind": kind, "fault": fault, "file": initial, "k": k, "T": None, "mutate": True, "reenter": True}
         for T in (1, 899, 900, 901, 1800, 5000):
             for k in (0, 1, 2, 3, 5):
                 yield {"kind": kind, "fault": fault, "file": initial, "k": k, "T": T, "mutate": True}
@@ -77,6 +79,7 @@ def strategy(tier: str):
             "k": st.integers(0, 20),
             "T": st.one_of(st.none(), st.sampled_from((1, 899, 900, 901, 1799, 1800, 1801, 2700, 5000)), st.integers(1, 10000), st.floats(0.5, 4000.0).map(lambda x: round(x, 1))),
             "mutate": st.sampled_from((True, False, "in-place")),
+            "reenter": st.booleans(),
         }
     ).filter(lambda c: c["kind"] == "plain" or ("disconnect" not in c["fault"] and c["fault"] != "connect-timeout"))
 
@@ -116,6 +119,7 @@ class StreamKind(c03.MemoryStreamTransport):
         self.connected += 1
         if self.fault == "connect":
             raise ConnectionRefusedError("injected connect fault")
+        self.mem_writer = c03._Writer()  # a fresh connection per session
         pair = await super()._open_connection()
         orig_close = self.mem_writer.close
 
@@ -257,6 +261,29 @@ def run_case(case: dict) -> Outcome:
         state, doc = disk()
         if state != "ok" or doc != at_exit_doc:
             return fail(f"exit:{phase}:final-save-missing:{fault}", f"{where}: after exit the file is {state} {str(doc)[:160]!r}; registry at exit {str(at_exit_doc)[:160]!r}")
+        if case.get("reenter") and fault == "none":
+            # the same gateway object is used for a second session (reconnect after the link dropped)
+            caught2: BaseException | None = None
+            try:
+                async with gateway:
+                    gateway.nodes[11] = Node(11, 17, "2.1")
+                    for _ in range(k):
+                        await asyncio.sleep(0)
+                    second_doc = registry_doc(gateway)
+            except BaseException as err:  # noqa: BLE001
+                caught2 = err
+            for _ in range(3):
+                await asyncio.sleep(0)
+            if caught2 is not None:
+                return fail(f"reenter:raised-{type(caught2).__name__}", f"{where}: entering the context a second time: {caught2!r}")
+            leftover = [t for t in asyncio.all_tasks() if t is not me and not t.done()]
+            if leftover:
+                return fail("reenter:task-left", f"{where}: second session left tasks: {leftover!r}")
+            if getattr(transport, "disconnected", 2) != 2:
+                return fail(f"reenter:disconnect-count-{transport.disconnected}", f"{where}: disconnect ran {transport.disconnected} times over two sessions")
+            state, doc = disk()
+            if state != "ok" or doc != second_doc:
+                return fail("reenter:final-save-missing", f"{where}: after the second session the file is {state} {str(doc)[:160]!r}")
         return None
 
     try:
